@@ -188,6 +188,16 @@ func (c *Conc) do(op COp) string {
 			Scribble(r)
 		}
 		return js
+	case "drop":
+		// everything goes, on disk and on the handle, while the other clients and the flusher
+		// run (their calls may fail until the collection exists again)
+		if err := c.db.Drop(); err != nil {
+			return "err:" + err.Error()
+		}
+		if err := c.db.Create(rec0(), c.Cfg.Schema()); err != nil {
+			return "err:" + err.Error()
+		}
+		return "dropped"
 	case "misuse":
 		// the documented misuse of an Assign target panics; the caller recovers and
 		// the handle must keep serving everybody
@@ -536,7 +546,7 @@ func genConc(r *simrt.Rand, cfg *Config, pools *Pools, heavyReaders, linear bool
 	}
 	kinds = append(kinds, "close", "misuse")
 	if !linear {
-		kinds = append(kinds, "bulk", "bulk", "create")
+		kinds = append(kinds, "bulk", "bulk", "create", "drop")
 	}
 	if linear {
 		// Search(...).Delete() is an evaluation followed by a deletion: two calls
